@@ -51,6 +51,11 @@ def r1(cx, rule="C05.R1"):
         if c.kind == "call" and c.term.callee.name == "wants_more": wsw.append((b.term, c))
     # self.continues is not modified inside reply_struct (so both reads agree)
     mods = [s for s in body.stmts() if s.kind == "assign" and s.lhs.p and root(s.lhs.l) == 1 and flag in s.lhs.fields()]
+    if (not csw or len(wsw) != 1) and not mods:
+        # the gate may be computed from values (`match (self.continues, self.wants_more(), ..)`, a mode enum): decide it per path
+        if r1_by_paths(cx, rule, body, cfg, du, flag, wa, writes, site): 
+            _r1_census(cx, rule, body, flag)
+            return
     cx.check(len(csw) >= 1 and len(wsw) == 1 and not mods, rule, "varlink:reply_struct:gate-present", site,
              "reply_struct does not test self.continues and wants_more() (continues tests: %d, wants_more tests: %d, writes to self.continues: %d)" % (len(csw), len(wsw), len(mods)),
              note_ok="%d tests of self.continues, one wants_more() test" % len(csw))
@@ -83,6 +88,65 @@ def r1(cx, rule="C05.R1"):
     good = bool(mism) and all(m in after_false for m in mism) and not any(x in after_false for x in ser) and not any(m in cfg.reach(x) for x in ser for m in mism)
     cx.check(good, rule, "varlink:reply_struct:mismatch-writes-nothing", site, "CallContinuesMismatch is not returned on the wants_more()==false edge before serialising/writing",
              note_ok="wants_more()==false -> Err(CallContinuesMismatch), nothing serialised")
+    _r1_census(cx, rule, body, flag)
+
+
+def r1_by_paths(cx, rule, body, cfg, du, flag, wa, writes, site):
+    """the gate of reply_struct decided on the feasible paths: which way the branches that depend on self.<flag> and on
+    wants_more() went (path literals see through moves, `!`, tuples that are matched on), whether the reply that is written
+    carries continues: true, and where CallContinuesMismatch is built. Returns False when the paths do not show a gate at all."""
+    from vlib.pathcond import literals
+    root = lambda l: ref_base(du, l)[0]
+    def flag_lit(l): return l.kind == "place" and l.obj is not None and l.obj.fields()[-1:] == [flag] and root(l.obj.l) == 1
+    def more_lit(l): return l.kind == "call" and l.obj.callee.name == "wants_more"
+    some_true = set()
+    for st in body.stmts():
+        if st.kind == "assign" and st.rv == "agg" and isinstance(st.agg, dict) and st.agg.get("variant") == "Some" and st.ops and st.ops[0].is_const and st.ops[0].cint() == 1: some_true.add(st.lhs.l)
+    def sets_continues(st):
+        if st.kind != "assign": return False
+        if st.lhs.p and st.lhs.fields()[-1:] == ["continues"] and body.ty_is(st.lhs.l, "Reply"): return True
+        if st.rv == "agg" and isinstance(st.agg, dict) and st.agg.get("adt", "").split("::")[-1] == "Reply" and st.ops and st.ops[0].place is not None and st.ops[0].place.l in some_true: return True
+        return False
+    setc = {st.bb for st in body.stmts() if sets_continues(st)}
+    mism = set(cc.err_variant_blocks(body, "CallContinuesMismatch"))
+    if not setc or not mism: return False
+    limit = []
+    stops = {wa[0].bb} | mism
+    paths = enumerate_paths(cfg, 0, lambda blk: blk.idx in stops or blk.term.kind == "return", du=du, on_limit=lambda: limit.append(1))
+    if limit: return False
+    bad = []; nwrite = 0; nmis = 0; saw_gate = False
+    ser = {t.bb for t in writes}
+    for p in paths:
+        if p[-1] < 0: continue
+        lits = literals(body, p)
+        c = [l.truth for l in lits if flag_lit(l)]; w = [l.truth for l in lits if more_lit(l)]
+        cv = None if not c else (c[0] if len(set(c)) == 1 else "mixed"); wv = None if not w else (w[0] if len(set(w)) == 1 else "mixed")
+        if cv == "mixed" or wv == "mixed": continue          # contradictory branch outcomes: not an execution
+        if p[-1] == wa[0].bb:
+            nwrite += 1
+            has_set = any(b in setc for b in p)
+            if cv is None: bad.append(("the reply is written on a path that never looked at self.%s" % flag, p)); continue
+            saw_gate = True
+            if cv and wv is not True: bad.append(("continues set, but the path did not establish wants_more()==true", p))
+            if cv and not has_set: bad.append(("continues set but the reply is written without continues: true", p))
+            if not cv and has_set: bad.append(("continues not set but the reply carries continues: true", p))
+        elif p[-1] in mism:
+            nmis += 1
+            if not (cv is True and wv is False): bad.append(("CallContinuesMismatch is built on a path without self.%s==true and wants_more()==false" % flag, p))
+            if any(b in ser for b in p[:-1]): bad.append(("something is serialised/written before CallContinuesMismatch is returned", p))
+        elif body.blocks[p[-1]].term.kind == "return" and cv is True and wv is False:
+            bad.append(("continues without more does not end in CallContinuesMismatch: the attempt succeeds silently (Mismatch is only raised on some of these paths)", p))
+    if not saw_gate: return False
+    cx.ok(rule, "varlink:reply_struct:gate-present", site, "self.%s and wants_more() decide every path to the write (value-level gate)" % flag)
+    cx.check(not bad and nwrite >= 2, rule, "varlink:reply_struct:continues-only-for-more", site,
+             "%d feasible path(s) violate the gate: %s (blocks %s)" % (len(bad), bad[0][0] if bad else "-", bad[0][1][:20] if bad else "-"),
+             note_ok="%d feasible paths to the write; continues:true is written iff self.continues and the request asked for more" % nwrite)
+    cx.check(nmis >= 1 and not [b for b in bad if "Mismatch" in b[0]], rule, "varlink:reply_struct:mismatch-writes-nothing", site,
+             "CallContinuesMismatch is not returned exactly for continues without more, before anything is serialised", note_ok="continues && !wants_more() -> Err(CallContinuesMismatch), nothing serialised")
+    return True
+
+
+def _r1_census(cx, rule, body, flag):
     # census: Some(true) assigned to a Reply.continues only here; constructors leave it None
     n = 0
     for b in cx.mir.bodies("varlink"):
@@ -91,6 +155,9 @@ def r1(cx, rule="C05.R1"):
             if s.kind == "assign" and s.lhs.p and s.lhs.fields()[-1:] == ["continues"] and b.ty_is(s.lhs.l, "Reply"):
                 n += 1
                 cx.check(b.path == body.path, rule, "varlink:%s:sets-Reply.continues" % b.path, "%s %s" % (s.sp, b.path), "Reply.continues is assigned outside reply_struct's gate", note_ok="the gated assignment")
+            if s.kind == "assign" and s.rv == "agg" and isinstance(s.agg, dict) and s.agg.get("adt", "").split("::")[-1] == "Reply" and b.path == body.path and s.ops and s.ops[0].place is not None:
+                # `Reply { continues: Some(true), ..reply }` inside the gate counts as the gated assignment
+                if any(k == "stmt" and d.rv == "agg" and isinstance(d.agg, dict) and d.agg.get("variant") == "Some" for k, d in DefUse(b).defs.get(s.ops[0].place.l, [])): n += 1
             if s.kind == "assign" and s.rv == "agg" and isinstance(s.agg, dict) and s.agg.get("adt", "").split("::")[-1] == "Reply" and b.path != body.path:
                 o = s.ops[0] if s.ops else None
                 isnone = o is not None and o.place is not None and any(k == "stmt" and d.rv == "agg" and isinstance(d.agg, dict) and d.agg.get("variant") == "None" for k, d in DefUse(b).defs.get(o.place.l, []))
